@@ -46,6 +46,11 @@ CHECKS = {
         technique="Hypothesis login sessions run three times with equal-length passwords differing in every position: non-interference of the fully formatted log streams, plus substring search",
         text="Each generated scenario (Client.login / Client.context / raw USER+PASS in 6 orders, 3 verb spellings, accepted or rejected) is run on simnet with three passwords of equal length (two over disjoint alphabets with the same special items, one with the special items replaced by plain characters); all log records (root, aioftp.*, asyncio; message, args, exception text) must be identical across the runs, which is exactly 'at most the length is revealed'; distinctive 4-character windows of the password must not occur in any record.",
         note="Deterministic logs are a by-product of simnet (virtual clock, fixed ports). Mutants caught: case-sensitive censoring, client censoring only short commands, 530 reply echoing the argument, star count depending on the content."),
+    "C02": dict(
+        category="exploration", design_ref="3/C02",
+        technique="Hypothesis on Server.get_paths (posix and windows pure-path flavours) vs an independent string resolver; generated CWD/CDUP histories; wire sessions on simnet with a recording backend jailed inside a larger tree with canaries",
+        text="Function level: generated (flavour, base_path, cwd, path string over an alphabet with '..', '.', empty, leading '//', backslash / drive / UNC / dot-prefixed segments); the real path must stay lexically inside the base with no '..' after the base prefix, and the reported virtual path must be the normalised absolute form of the location addressed. History level: cwd stays absolute/normalised under any CWD/CDUP sequence and '.' is the identity. Wire level: all 13 path-taking commands with such arguments against a server whose recording backend is rooted at /jail/u1 inside a tree with canary siblings (memory and a real temp directory); every path the backend is asked about must be inside the base, canaries unchanged, PWD equal to the resolver.",
+        note="Windows flavour is lexical only (PureWindowsPath), like the repository's own test. Found and fixed the '..\\..\\x' escape and the base_path.parent probe; the remaining windows-flavour alias (backslash / drive segments re-parsed) is a recorded known finding whose signature is suppressed. Mutants caught: '..' not folded for relative input, guard removed, relative paths joined by name only, '..' allowed above depth 1."),
     "C03": dict(
         category="exploration", design_ref="3/C03",
         technique="Hypothesis-generated state-aware command histories (auth-heavy) on a simulated network vs an auth automaton + instrumented backend + network ledger",
